@@ -352,6 +352,9 @@ type KMS struct {
 	Gate  *Gate
 	Quiet bool
 	Op    func() string
+	// OnReturn, if set, runs when a successful call is about to return (the driver uses it to cancel the caller's context at
+	// exactly that point; the fake itself, like most KMS clients once the reply is in, does not look at the context)
+	OnReturn func()
 }
 
 var _ appencryption.KeyManagementService = (*KMS)(nil)
@@ -377,6 +380,9 @@ func (k *KMS) EncryptKey(_ context.Context, key []byte) ([]byte, error) {
 	k.W.ctKey[FP(ct)] = fp
 	k.W.ctWrap[FP(ct)] = "kms"
 	k.W.mu.Unlock()
+	if k.OnReturn != nil {
+		k.OnReturn()
+	}
 	return ct, nil
 }
 
@@ -395,6 +401,9 @@ func (k *KMS) DecryptKey(_ context.Context, ct []byte) ([]byte, error) {
 	pt, err := k.W.Real.Decrypt(ct, k.W.master)
 	if err == nil && !k.Quiet {
 		k.W.retain("kms-decrypt-output", k.op(), pt)
+	}
+	if err == nil && k.OnReturn != nil {
+		k.OnReturn()
 	}
 	return pt, err
 }
